@@ -104,7 +104,7 @@ P("C10", level="proof", design_ref="7/C10", units=FT + ["U.api.create", "U.api.l
        "features_supported, make/get_features, is_encrypted proved; create, both decoders and load proved to refuse exactly the reserved bits "
        "(create before allocating; the others after the checksum, freeing the block); feature bits carried by the phrase/storage/crypt lemmas.",
   note="The reserved mask is symbolic in every entry-point proof (all eight enabled masks).")
-P("C11", level="proof", design_ref="7/C11", units=["U.bd.encode", "U.bd.decode", "U.api.get_birthday", "U.api.create", "L.pack.inv1", "L.st.inv1", "U.api.crypt", "L.rt.index", "U.gf.pack", "U.gf.unpack", "U.st.store", "U.st.load", "U.api.load"] + DEC,
+P("C11", level="proof", design_ref="7/C11", units=["U.bd.encode", "U.bd.decode", "U.dep.stdlib_time", "U.api.get_birthday", "U.api.create", "L.pack.inv1", "L.st.inv1", "U.api.crypt", "L.rt.index", "U.gf.pack", "U.gf.unpack", "U.st.store", "U.st.load", "U.api.load"] + DEC,
   text="birthday_encode proved against a division-free specification for all 2^64 clock values; birthday_decode and "
        "polyseed_get_birthday proved = epoch + k*step without overflow; polyseed_create proved to stamp the seed from exactly "
        "one call of the injected clock; packing, storage and crypt contracts carry all 10 bits unchanged.",
@@ -147,7 +147,7 @@ P("C17", level="proof", design_ref="7/C17", units=["U.str.write", "U.str.write.f
        "its slice; polyseed_encode proved, under fits, to keep every intermediate cursor and the terminator inside the buffer, to satisfy its own "
        "length assertion and to return the length of the output; decoders/crypt normalise without overrun.",
   note="NFC length bound uses utf8proc and the no-composition-across-separator fact (T.unicode).")
-P("C18", level="proof", design_ref="7/C18", units=["U.api.create", "U.dep.inject", "U.api.keygen", "U.api.free"], engines=["calls", "statics"],
+P("C18", level="proof", design_ref="7/C18", units=["U.api.create", "U.dep.inject", "U.dep.stdlib_time", "U.api.keygen", "U.api.free"], engines=["calls", "statics"],
   text="polyseed_create proved to take exactly 19 bytes from the injected random source into the secret (top two bits dropped), to call the "
        "injected clock exactly once and nothing else; polyseed_inject proved, from an arbitrary previous table, to copy every entry and to fall "
        "back to libc time/malloc/free exactly for NULL entries; goto-program scan: no direct call to any other external function.",
